@@ -196,6 +196,17 @@ Theorem C20_preprocessors_process_independent :
   EM.emnist_is_process_independent = true.
 Proof. exact preprocessors_process_independent. Qed.
 
+(* argument plumbing (recognised, fail-closed): preprocess_batch_tff -> preprocess_image_tff, preprocess_batch ->
+   preprocess_image, every load_data -> load_split (and sequence_length into the Shakespeare preprocessor), the
+   Stack Overflow tokenizer constructors, as_preprocess_batch -> create_token_to_ids_fn, get_task -> load_data:
+   each parameter is handed to the like-named parameter (exercised with all-distinct non-default values: kind plumb) *)
+Theorem C20_argument_forwarding :
+  CF.cifar_batch_tff_forwards = true /\ CF.cifar_batch_forwards = true /\ CF.cifar_load_data_forwards = true /\
+  EM.emnist_load_data_forwards = true /\ SH.sh_load_data_forwards = true /\ SH.sh_load_data_binds_sequence_length = true /\
+  SO.so_load_data_forwards = true /\ SO.so_tokenizer_forwards_vocab_size = true /\ SO.so_tokenizer_forwards_buckets = true /\
+  SO.so_as_preprocess_batch_forwards = true /\ TK.tasks_forward_mode_and_cache_dir = true.
+Proof. exact argument_forwarding. Qed.
+
 (* the hypotheses of C20_domain_ranges / C20_labels_in_vocab are satisfiable by non-trivial instances *)
 Example C20_hypotheses_example :
   (length [48; 49; 50; 51; 52; 53; 54; 55; 56; 57; 97; 98; 99; 100; 101; 102; 58; 102] = 18%nat /\ length [95; 48; 55] = 3%nat /\
@@ -240,3 +251,4 @@ Print Assumptions C20_lm_train_loss_ignores_pad_positions.
 Print Assumptions C20_table_last_occurrence_wins.
 Print Assumptions C20_plain_normalisation.
 Print Assumptions C20_preprocessors_process_independent.
+Print Assumptions C20_argument_forwarding.
